@@ -448,3 +448,8 @@ func (c *CaseC10) Eval(ob *Obs) []Finding {
 	}
 	return out
 }
+
+func (c *CaseC17) base() *CLIBase  { return &c.Base }
+func (c *CaseC17) clone() baseCase { d := *c; d.Only = -1; return &d }
+func (c *CaseC10) base() *CLIBase  { return &c.Base }
+func (c *CaseC10) clone() baseCase { d := *c; d.Only = -1; return &d }
